@@ -45,6 +45,8 @@ enum Cmd {
     Send(Vec<Vec<u8>>),
     /// raw bytes on the TCP stream (WebSocket: beneath the WebSocket layer)
     SendRaw(Vec<u8>),
+    /// raw bytes in several writes with a short pause between them (TCP)
+    SendPieces(Vec<Vec<u8>>),
     SendText,
     SendWsClose,
     /// wait until at least `n` bytes sit unread in the socket's receive queue
@@ -241,6 +243,24 @@ async fn server_task(is_ws: bool, listener: tokio::net::TcpListener, mut cmds: t
                 let _ = match r {
                     Ok(()) => ev.send(Event::Done),
                     Err(e) => ev.send(Event::SrvErr(format!("raw:{:?}", e.kind()))),
+                };
+            }
+            Cmd::SendPieces(pieces) => {
+                let mut r = Ok(());
+                let last = pieces.len().saturating_sub(1);
+                for (i, p) in pieces.into_iter().enumerate() {
+                    r = conn.raw().write_all(&p).await;
+                    let _ = conn.raw().flush().await;
+                    if r.is_err() {
+                        break;
+                    }
+                    if i != last {
+                        tokio::time::sleep(Duration::from_millis(3)).await;
+                    }
+                }
+                let _ = match r {
+                    Ok(()) => ev.send(Event::Done),
+                    Err(e) => ev.send(Event::SrvErr(format!("pieces:{:?}", e.kind()))),
                 };
             }
             Cmd::SendText => {
@@ -477,6 +497,34 @@ fn response_q(id: u64, notify: bool, tag: i64, c: i64, qv: usize) -> Vec<u8> {
     let body = serde_json::to_vec(&json!({ "tag": tag, "c": c })).unwrap();
     RawFrame::request(id, notify, 1, &odd_query(qv), 2, &body).to_vec()
 }
+/// Body sizes of frames nobody waits for: around the clients' 4 KiB / 8 KiB buffers, and far beyond them.
+const STRAY_SIZES: [usize; 10] = [0, 1, 4095, 4096, 4097, 8191, 8192, 8193, 40_000, 200_000];
+fn stray_response(id: u64, k: usize) -> Vec<u8> {
+    let body = vec![0xA5u8; STRAY_SIZES[k % STRAY_SIZES.len()]];
+    RawFrame::request(id, false, 1, &odd_query(k), 0, &body).to_vec()
+}
+/// Cut `wire` (concatenated frames of the given lengths) into pieces at PRNG-chosen points: inside a
+/// header, right after it, inside the query, inside the body. At most `max_cuts` cuts.
+fn cut_points(lens: &[usize], seed: u64, max_cuts: usize) -> Vec<usize> {
+    let mut r = Rng::new(seed);
+    let mut cuts = Vec::new();
+    let mut base = 0usize;
+    for &len in lens {
+        if cuts.len() < max_cuts && r.chance(1, 2) {
+            let within = match r.below(4) {
+                0 => 1 + r.below(47) as usize,
+                1 => 48,
+                2 => 48 + 1 + r.below(2) as usize,
+                _ => if len > 52 { 52 + r.below((len - 52) as u64) as usize } else { len / 2 },
+            };
+            if within > 0 && within < len {
+                cuts.push(base + within);
+            }
+        }
+        base += len;
+    }
+    cuts
+}
 /// An error response (ec != 0, UTF-8 message body).
 fn error_response(id: u64, ec: u32) -> Vec<u8> {
     let mut f = RawFrame::request(id, false, 1, b"/t", 3, b"late failure of some other request");
@@ -636,6 +684,8 @@ struct MuxCase {
     script: Vec<String>,
     /// entry point of each caller (empty = all `call_json`)
     vars: Vec<usize>,
+    /// != 0: the peer writes the frames in pieces cut at points derived from this seed (TCP clients)
+    frag: u64,
 }
 
 fn run_mux_case(h: &H, out: &mut Out, idx: &str, case: &MuxCase) {
@@ -643,7 +693,7 @@ fn run_mux_case(h: &H, out: &mut Out, idx: &str, case: &MuxCase) {
     let script_s = if case.script.is_empty() { "-".to_string() } else { case.script.join(",") };
     let vars: Vec<usize> = (0..case.n).map(|c| variant_for(case.kind, case.vars.get(c).copied().unwrap_or(0))).collect();
     let vars_s = if vars.is_empty() { "-".to_string() } else { vars.iter().map(|x| x.to_string()).collect::<Vec<_>>().join(",") };
-    let op_of = |ids: &str| format!("case {} {} {} {} {} {}", idx, case.kind, case.n, ids, script_s, vars_s);
+    let op_of = |ids: &str| format!("case {} {} {} {} {} {} {}", idx, case.kind, case.n, ids, script_s, vars_s, case.frag);
     out.begin(&op_of("?"));
     let fail = |out: &mut Out, sig: &str, detail: String, ids: &str| {
         out.oracle_fail(&format!("mux.{}.{}", kname, sig), &detail, &[op_of(ids)]);
@@ -699,12 +749,15 @@ fn run_mux_case(h: &H, out: &mut Out, idx: &str, case: &MuxCase) {
         let (id, notify, who) = match &t[..1] {
             "r" | "v" => (ids[k], false, Some(k)),
             "n" => (ids[k], true, Some(k)),
-            "u" | "e" => (unknown_base + k as u64, false, None),
+            "u" | "e" | "b" => (unknown_base + k as u64, false, None),
             _ => (unknown_base + k as u64, true, None),
         };
         if &t[..1] == "e" {
             // unknown id *and* a non-zero error code (a late error answer to a call that gave up)
             wire.push(error_response(id, 7));
+        } else if &t[..1] == "b" {
+            // nobody waits for it and its payload does not fit the client's read buffer
+            wire.push(stray_response(id, k));
         } else if who.is_none() {
             // nobody waits for it: also vary the echoed query (long, non-ASCII, not UTF-8)
             wire.push(response_q(id, notify, pos as i64, -1, k));
@@ -742,7 +795,19 @@ fn run_mux_case(h: &H, out: &mut Out, idx: &str, case: &MuxCase) {
         wire.push(response(unknown_base + 999_999, true, -1, -1)); // end marker for the subscriber
     }
     // one write per frame on even cases, one coalesced write on odd ones (TCP only)
-    if case.kind != 2 && case.script.len() % 2 == 1 {
+    if case.kind != 2 && case.frag != 0 {
+        let lens: Vec<usize> = wire.iter().map(|f| f.len()).collect();
+        let all = wire.concat();
+        let mut pieces = Vec::new();
+        let mut last = 0usize;
+        for c in cut_points(&lens, case.frag, 10) {
+            pieces.push(all[last..c].to_vec());
+            last = c;
+        }
+        pieces.push(all[last..].to_vec());
+        out.count(&format!("mux.pieces.{}", pieces.len().min(6)));
+        s.send(Cmd::SendPieces(pieces));
+    } else if case.kind != 2 && case.script.len() % 2 == 1 {
         s.send(Cmd::SendRaw(wire.concat()));
     } else {
         s.send(Cmd::Send(wire));
@@ -1676,7 +1741,8 @@ fn random_script(r: &mut Rng, n: usize) -> Vec<String> {
     };
     for _ in 0..extras {
         let pos = r.below(script.len() as u64 + 1) as usize;
-        let t = match r.below(10) {
+        let t = match r.below(12) {
+            10 | 11 => format!("b{}", r.below(10)),
             9 => format!("v{}", r.below(n.max(1) as u64)),
             8 => format!("e{}", r.below(50)),
             0 | 1 => format!("u{}", r.below(50)),
@@ -1712,17 +1778,19 @@ fn gen_mux(args: &Args, r: &mut Rng) -> (Vec<MuxCase>, Vec<BatchCase>) {
                     script.insert(pos, t);
                 }
                 let vars = (0..n).map(|_| r.below(NVARIANTS as u64) as usize).collect();
-                cases.push(MuxCase { kind, n, script, vars });
+                let frag = if r.chance(1, 3) { 1 + r.below(1 << 30) } else { 0 };
+                cases.push(MuxCase { kind, n, script, vars, frag });
             }
         }
         // every single insertion position of each adversarial kind for N = 2 (all orders)
         for p in permutations(2) {
-            for t in ["u0", "u1", "u2", "u3", "e0", "x0", "x1", "n0", "n1", "r0", "r1", "v0", "v1"] {
+            for t in ["u0", "u1", "u2", "u3", "e0", "x0", "x1", "n0", "n1", "r0", "r1", "v0", "v1", "b0", "b1", "b2", "b3", "b4", "b5", "b6", "b7", "b8", "b9"] {
                 for pos in 0..=2 {
                     let mut script: Vec<String> = p.iter().map(|c| format!("r{c}")).collect();
                     script.insert(pos, t.to_string());
                     let vars = vec![r.below(NVARIANTS as u64) as usize, r.below(NVARIANTS as u64) as usize];
-                    cases.push(MuxCase { kind, n: 2, script, vars });
+                    let frag = if r.chance(1, 3) { 1 + r.below(1 << 30) } else { 0 };
+                    cases.push(MuxCase { kind, n: 2, script, vars, frag });
                 }
             }
         }
@@ -1733,9 +1801,9 @@ fn gen_mux(args: &Args, r: &mut Rng) -> (Vec<MuxCase>, Vec<BatchCase>) {
                 script.push("u0".into()); // odd script length = coalesced write (TCP clients)
             }
             let vars: Vec<usize> = (0..n).map(|c| c % NVARIANTS).collect();
-            cases.push(MuxCase { kind, n, script: script.clone(), vars: vars.clone() });
+            cases.push(MuxCase { kind, n, script: script.clone(), vars: vars.clone(), frag: 0 });
             script.reverse();
-            cases.push(MuxCase { kind, n, script, vars });
+            cases.push(MuxCase { kind, n, script, vars, frag: 1 + r.below(1 << 30) });
         }
         let nrand = if args.thorough() { 1000 } else { 30 };
         for _ in 0..nrand {
@@ -1746,7 +1814,8 @@ fn gen_mux(args: &Args, r: &mut Rng) -> (Vec<MuxCase>, Vec<BatchCase>) {
                 _ => r.range(41, 64),
             } as usize;
             let vars = (0..n).map(|_| r.below(NVARIANTS as u64) as usize).collect();
-            cases.push(MuxCase { kind, n, script: random_script(r, n), vars });
+            let frag = if r.chance(1, 2) { 1 + r.below(1 << 30) } else { 0 };
+            cases.push(MuxCase { kind, n, script: random_script(r, n), vars, frag });
         }
     }
     let mut batches = Vec::new();
@@ -2436,6 +2505,111 @@ fn run_wtmo_case(h: &H, out: &mut Out, idx: &str, n: usize, mib: usize) {
     }
     out.count(&format!("deadconn.{}.wtmo", kname));
     out.case(&op, &format!("{} small {} big {}", idx, small.join(","), big), true);
+    s.send(Cmd::Close);
+}
+
+
+/// `k` frames nobody waits for arrive back to back — late responses of timed-out calls, unknown ids, or
+/// duplicates of an answered call — while one call is still pending; then that call's reply, then a
+/// later call. Nothing but the pending call's own reply may affect it.
+fn run_lates_case(h: &H, out: &mut Out, idx: &str, kind: usize, k: usize, shape: &str) {
+    let kname = KINDS[kind];
+    let op = format!("lates {} {} {} {}", idx, kind, k, shape);
+    out.begin(&op);
+    let ops = [op.clone()];
+    let Ok(mut s) = h.open(kind) else { return };
+    s.send(Cmd::AutoRead);
+    let _ = s.srv_done();
+    // wait for the request of caller `c`
+    fn req_of(s: &mut Session, c: usize) -> Option<RawFrame> {
+        let deadline = Instant::now() + call_watchdog();
+        loop {
+            if let Some(p) = s.req_stash.iter().position(|f| caller_of(f) == Some(c)) {
+                return Some(s.req_stash.remove(p));
+            }
+            match s.ev.recv_timeout(deadline.saturating_duration_since(Instant::now())) {
+                Ok(Event::Req(f)) => s.req_stash.push(f),
+                Ok(Event::Res(x, r)) => s.stash.push((x, r)),
+                Ok(e) => s.srv_stash.push_back(e),
+                Err(_) => return None,
+            }
+        }
+    }
+    let v0 = (k * 3 + kind) % NVARIANTS;
+    s.call_v(h, 0, v0, None);
+    let Some(p) = req_of(&mut s, 0) else {
+        out.oracle_fail(&format!("deadconn.{}.setup", kname), "pending call's request not seen", &ops);
+        return;
+    };
+    let mut strays: Vec<Vec<u8>> = Vec::new();
+    match shape {
+        "late" => {
+            for c in 1..=k {
+                s.call_v(h, c, (c * 7) % NVARIANTS, Some(Duration::from_millis(30)));
+            }
+            for c in 1..=k {
+                let Some(f) = req_of(&mut s, c) else {
+                    out.oracle_fail(&format!("deadconn.{}.setup", kname), &format!("request of call {} not seen", c), &ops);
+                    return;
+                };
+                // every fourth late answer is a large one
+                strays.push(if c % 4 == 0 { stray_response(f.h.id, 8 + c % 2) } else { response_v(f.h.id, false, c as i64, c as i64, variant_of(&f)) });
+            }
+            for c in 1..=k {
+                let r = s.res_of(c, call_watchdog());
+                if !matches!(&r, Some(Err(e)) if cls(e) == "Timeout") {
+                    out.oracle_fail(&format!("deadconn.{}.timeout_outcome", kname), &format!("unanswered call {} with a 30 ms timeout returned {}", c, own(&r, c as i64)), &ops);
+                }
+            }
+        }
+        "dup" => {
+            s.call_v(h, 1, 0, None);
+            let Some(f) = req_of(&mut s, 1) else { return };
+            s.send(Cmd::Send(vec![response_v(f.h.id, false, 1, 1, 0)]));
+            let r = s.res_of(1, call_watchdog());
+            if own(&r, 1) != "own" {
+                out.oracle_fail(&format!("deadconn.{}.setup", kname), &format!("answered call returned {}", own(&r, 1)), &ops);
+            }
+            for j in 0..k {
+                strays.push(if j % 4 == 3 { stray_response(f.h.id, 8) } else { response_v(f.h.id, false, 1, 1, 0) });
+            }
+        }
+        _ => {
+            for j in 0..k {
+                strays.push(if j % 3 == 2 { stray_response(2_000_000_000 + j as u64, j) } else { response_q(2_000_000_000 + j as u64, false, -1, -1, j) });
+            }
+        }
+    }
+    // back to back, nothing matched in between
+    if kind == 2 {
+        s.send(Cmd::Send(strays));
+    } else {
+        s.send(Cmd::SendRaw(strays.concat()));
+    }
+    let _ = s.srv_done();
+    s.send(Cmd::Send(vec![response_v(p.h.id, false, 0, 0, variant_of(&p))]));
+    let r = s.res_of(0, call_watchdog());
+    let pending = own(&r, 0);
+    if pending != "own" {
+        out.oracle_fail(&format!("deadconn.{}.pending_call_hit_by_unawaited_frames", kname), &format!("{} {} frames in a row that nobody waited for, then the pending call's reply: it returned {}", k, shape, pending), &ops);
+        if pending == "HANG" { saw_hang(); }
+    }
+    let late = k + 2;
+    s.call_v(h, late, 1, None);
+    let later = match req_of(&mut s, late) {
+        Some(f) => {
+            s.send(Cmd::Send(vec![response_v(f.h.id, false, late as i64, late as i64, variant_of(&f))]));
+            own(&s.res_of(late, call_watchdog()), late as i64)
+        }
+        None => own(&s.res_of(late, Duration::from_millis(200)), late as i64),
+    };
+    if later != "own" {
+        out.oracle_fail(&format!("deadconn.{}.later_call_after_unawaited_frames", kname), &format!("after {} {} frames in a row a later call returned {}", k, shape, later), &ops);
+        if later == "HANG" { saw_hang(); }
+    }
+    out.count(&format!("deadconn.{}.lates.{}", kname, shape));
+    let canon = |x: &str| if x == "own" { "own".to_string() } else if x == "HANG" { "HANG".to_string() } else { "Err".to_string() };
+    out.case(&op, &format!("{} pending {} later {}", idx, canon(&pending), canon(&later)), true);
     s.send(Cmd::Close);
 }
 
@@ -3146,7 +3320,8 @@ fn main() {
                 Some("case") if w.len() >= 6 => {
                     let script = if w[5] == "-" { vec![] } else { w[5].split(',').map(|s| s.to_string()).collect() };
                     let vars = w.get(6).filter(|x| **x != "-").map(|x| x.split(',').filter_map(|y| y.parse().ok()).collect()).unwrap_or_default();
-                    run_mux_case(&h, &mut out, &idx, &MuxCase { kind: w[2].parse().unwrap(), n: w[3].parse().unwrap(), script, vars });
+                    let frag = w.get(7).and_then(|x| x.parse().ok()).unwrap_or(0);
+                    run_mux_case(&h, &mut out, &idx, &MuxCase { kind: w[2].parse().unwrap(), n: w[3].parse().unwrap(), script, vars, frag });
                 }
                 Some("seq") if w.len() >= 5 => run_seq_case(&h, &mut out, &idx, w[2].parse().unwrap(), w[3].parse().unwrap(), w[4].parse().unwrap(), 0),
                 Some("seqbig") if w.len() >= 6 => run_seq_case(&h, &mut out, &idx, w[2].parse().unwrap(), w[3].parse().unwrap(), w[4].parse().unwrap(), w[5].parse().unwrap()),
@@ -3171,6 +3346,7 @@ fn main() {
                     }
                 }
                 Some("fwdres") => run_fwd_residue_case(&h, &mut out, &idx),
+                Some("lates") if w.len() >= 5 => run_lates_case(&h, &mut out, &idx, w[2].parse().unwrap(), w[3].parse().unwrap(), w[4]),
                 Some("abandon") if w.len() >= 4 => run_abandon_case(&h, &mut out, &idx, w[2].parse().unwrap(), w[3].parse().unwrap()),
                 Some("wtmo") if w.len() >= 5 => run_wtmo_case(&h, &mut out, &idx, w[3].parse().unwrap(), w[4].parse().unwrap()),
                 Some("stall") if w.len() >= 4 => run_stall_case(&h, &mut out, &idx, w[2].parse().unwrap(), w[3]),
@@ -3207,8 +3383,14 @@ fn main() {
         let (cases, batches) = gen_mux(&args, &mut rng);
         for (i, c) in cases.iter().enumerate() {
             run_mux_case(&h, &mut out, &format!("m{i}"), c);
+            if out.oracle_failures >= 12 {
+                break; // enough failing inputs: on a broken tree the rest only repeats them, slowly
+            }
         }
         for (i, b) in batches.iter().enumerate() {
+            if out.oracle_failures >= 12 {
+                break;
+            }
             run_batch_case(&h, &mut out, &format!("b{i}"), b);
         }
         let mut q = 0;
@@ -3238,6 +3420,9 @@ fn main() {
         let cases = gen_dead(&args, &mut rng);
         for (i, c) in cases.iter().enumerate() {
             run_dead_case(&h, &mut out, &format!("d{i}"), c);
+            if out.oracle_failures >= 12 {
+                break; // enough failing inputs: on a broken tree the rest only repeats them, slowly
+            }
         }
         let mut t = 0;
         for kind in 0..3 {
@@ -3273,6 +3458,17 @@ fn main() {
             c += 1;
         }
         run_fwd_residue_case(&h, &mut out, "fr0");
+        // many frames in a row that nobody waits for, with a call still pending
+        let mut lq = 0;
+        for kind in 0..3 {
+            for (k, shape) in [(1usize, "late"), (7, "late"), (8, "late"), (9, "late"), (16, "late"), (64, "late"), (8, "unknown"), (9, "unknown"), (64, "unknown"), (9, "dup"), (16, "dup")] {
+                if out.oracle_failures >= 12 {
+                    break;
+                }
+                run_lates_case(&h, &mut out, &format!("k{lq}"), kind, k, shape);
+                lq += 1;
+            }
+        }
         // a call abandoned while its large write is parked; a write timing out mid-frame with calls in flight
         let reps = if args.thorough() { 6 } else { 2 };
         for j in 0..reps {
